@@ -7,8 +7,17 @@ Local Open Scope Z_scope.
 Local Open Scope string_scope.
 
 (* ---------- the documents, written out ---------- *)
-Definition sstr (q : oquirks) (s : string) : string := if q_sarif_unsanitized q then s else sanitize s.
-Definition sarif_core (q : oquirks) (v : viol) : core := (v_rule v, sstr q (v_file v), v_line v, v_col v, sstr q (v_msg v)).
+(* the strings SARIF shows for the path and the message of a violation, read off the generated
+   `_create_result` / `_create_location` templates by computation (raw attribute, or passed through the
+   sanitiser - by the quirk patch when the flag is off, or by the source itself once it is fixed) *)
+Definition sarif_doc_strings (q : oquirks) (v : viol) : string * string :=
+  match decode_sarif_result (interp 24 q "" [] v "" (TCallOne "_create_result")) with
+  | Some (_, f, _, _, m) => (f, m)
+  | None => ("", "")
+  end.
+Definition suri (q : oquirks) (v : viol) : string := fst (sarif_doc_strings q v).
+Definition smsg (q : oquirks) (v : viol) : string := snd (sarif_doc_strings q v).
+Definition sarif_core (q : oquirks) (v : viol) : core := (v_rule v, suri q v, v_line v, v_col v, smsg q v).
 
 Definition json_viol_doc (v : viol) : json :=
   JObj [("rule_id", JStr (v_rule v)); ("file_path", JStr (sanitize (v_file v))); ("line", JNum (v_line v));
@@ -18,9 +27,9 @@ Definition rule_json (v : viol) : json :=
   JObj [("id", JStr (v_rule v)); ("shortDescription", JObj [("text", JStr (description v))])].
 
 Definition result_json (q : oquirks) (v : viol) : json :=
-  JObj [("ruleId", JStr (v_rule v)); ("level", JStr "error"); ("message", JObj [("text", JStr (sstr q (v_msg v)))]);
+  JObj [("ruleId", JStr (v_rule v)); ("level", JStr "error"); ("message", JObj [("text", JStr (smsg q v))]);
         ("locations", JArr [JObj [("physicalLocation",
-            JObj [("artifactLocation", JObj [("uri", JStr (sstr q (v_file v)))]);
+            JObj [("artifactLocation", JObj [("uri", JStr (suri q v))]);
                   ("region", JObj [("startLine", JNum (v_line v)); ("startColumn", JNum (v_col v + 1))])])]])].
 
 (* Gen facts: these two equalities hold by computation on the generated templates; a changed key,
@@ -63,7 +72,7 @@ Proof. rewrite json_roundtrip. intros [= <- <-]. rewrite map_length. split; refl
 
 (* ---------- SARIF: round trip ---------- *)
 Lemma decode_result_json q v : decode_sarif_result (result_json q v) = Some (sarif_core q v).
-Proof. unfold sarif_core. cbn. now rewrite Z.add_simpl_r. Qed.
+Proof. unfold sarif_core. cbn -[suri smsg]. now rewrite Z.add_simpl_r. Qed.
 
 Theorem sarif_roundtrip q ver vs :
   decode_sarif (render_sarif q ver vs) = Some (map (sarif_core q) vs).
@@ -73,10 +82,7 @@ Proof.
 Qed.
 
 Lemma sarif_core_ideal q v : q_sarif_unsanitized q = false -> sarif_core q v = san_core v.
-Proof. unfold sarif_core, sstr, san_core. now intros ->. Qed.
-
-Lemma sarif_core_actual q v : q_sarif_unsanitized q = true -> sarif_core q v = core_of v.
-Proof. unfold sarif_core, sstr, core_of. now intros ->. Qed.
+Proof. destruct q as [a b c d e f]. cbn [q_sarif_unsanitized]. intros ->. reflexivity. Qed.
 
 (* a string the sanitiser leaves alone (valid UTF-8: no undecodable byte) *)
 Definition clean (s : string) : Prop := sanitize s = s.
@@ -86,12 +92,17 @@ Theorem sarif_roundtrip_exact q ver vs :
   q_sarif_unsanitized q = false -> decode_sarif (render_sarif q ver vs) = Some (map san_core vs).
 Proof. intros H. rewrite sarif_roundtrip. f_equal. apply map_ext. intro. now apply sarif_core_ideal. Qed.
 
+Lemma sarif_core_clean q v : viol_clean v -> sarif_core q v = san_core v.
+Proof.
+  intros [Hf Hm]. unfold clean in Hf, Hm. destruct q as [[] b c d e f]; unfold sarif_core, suri, smsg, san_core; cbn;
+    now rewrite ?Hf, ?Hm.
+Qed.
+
 Theorem sarif_roundtrip_clean_partial q ver vs :
   Forall viol_clean vs -> decode_sarif (render_sarif q ver vs) = Some (map san_core vs).
 Proof.
   intros H. rewrite sarif_roundtrip. f_equal. apply map_ext_in. intros v Hv.
-  rewrite Forall_forall in H. destruct (H v Hv) as [Hf Hm]. unfold sarif_core, sstr, san_core.
-  destruct (q_sarif_unsanitized q); [now rewrite Hf, Hm|reflexivity].
+  rewrite Forall_forall in H. now apply sarif_core_clean, H.
 Qed.
 
 (* JSON and SARIF describe the same list *)
@@ -164,7 +175,7 @@ Definition pos_ok (v : viol) : Prop := 1 <= v_line v /\ 0 <= v_col v.
 Lemma sarif_result_ok_json q v : pos_ok v -> sarif_result_ok (result_json q v) = true.
 Proof.
   intros [Hl Hc]. unfold sarif_result_ok, result_json.
-  cbn [get_str get_one get get_num assoc String.eqb Ascii.eqb Bool.eqb bind smem sarif_levels andb].
+  cbn -[suri smsg Z.leb Z.add].
   apply andb_true_iff. split; apply Z.leb_le; lia.
 Qed.
 
@@ -188,5 +199,5 @@ Theorem sarif_region_one_based q v l c :
   get_num "startColumn" (JObj [("startLine", JNum (v_line v)); ("startColumn", JNum (v_col v + 1))]) = Some c ->
   pos_ok v -> decode_sarif_result (result_json q v) = Some (sarif_core q v) /\ 1 <= l /\ 1 <= c /\ c = v_col v + 1.
 Proof.
-  cbn. intros [= <-] [= <-] [Hl Hc]. repeat split; [apply decode_result_json|lia|lia].
+  cbn -[suri smsg decode_sarif_result Z.add]. intros [= <-] [= <-] [Hl Hc]. repeat split; [apply decode_result_json|lia|lia].
 Qed.
